@@ -4,6 +4,7 @@ import (
 	"fmt"
 	"go/token"
 	"go/types"
+	"os"
 	"strings"
 
 	"golang.org/x/tools/go/ssa"
@@ -121,7 +122,19 @@ func ruleIterContinue(cx *Ctx) {
 		return
 	}
 	n := 0
+	// the iterator body: a closure of nodes, or a method it returns as a method value
+	var bodies []*ssa.Function
 	withClosures(fn, func(f *ssa.Function) {
+		bodies = append(bodies, f)
+		allInstrs(f, func(in ssa.Instruction) {
+			if mc, ok := in.(*ssa.MakeClosure); ok {
+				if bm := boundMethod(mc); bm != nil && len(origin(bm).Blocks) > 0 {
+					withClosures(origin(bm), func(g *ssa.Function) { bodies = append(bodies, g) })
+				}
+			}
+		})
+	})
+	for _, f := range bodies {
 		allInstrs(f, func(in ssa.Instruction) {
 			if !isCallTo(in, rng) {
 				return
@@ -184,7 +197,7 @@ func ruleIterContinue(cx *Ctx) {
 				cx.R.Check(fromYield(r.Results[0], 0), rule, funcName(cb), fmt.Sprintf("return#%d", n), cx.P.where(r), "the Range callback of the node iterator returns true, or what the consumer returned: a skipped node never stops the iteration")
 			})
 		})
-	})
+	}
 	if n == 0 {
 		cx.R.Violate(rule, funcName(fn), "range callback", cx.P.Pos(fn.Pos()), "NOT SATISFIED: cache.nodes no longer ranges over the table with a callback")
 	}
@@ -198,10 +211,11 @@ func ruleC16InvalidateOrder(cx *Ctx) {
 	tryPop := cx.need(rule, queuePkg, "MPSC", "TryPop")
 	dnm := cx.need(rule, "", "cache", "deleteNodeFromMap")
 	maint := cx.P.Func("", "cache", "maintenance")
+	rt := cx.P.Func("", "cache", "runTask")
 	if fn == nil || tryPop == nil || dnm == nil {
 		return
 	}
-	steps := func(what func(ssa.Instruction) bool) []ssa.Instruction {
+	steps := func(what func(ssa.Instruction) bool, skipMaintenance bool) []ssa.Instruction {
 		var out []ssa.Instruction
 		allInstrs(fn, func(in ssa.Instruction) {
 			if what(in) {
@@ -210,20 +224,28 @@ func ruleC16InvalidateOrder(cx *Ctx) {
 			}
 			if c := calleeOf(in); c != nil && c.Pkg != nil && c.Pkg.Pkg.Path() == modPath && cname(c) != "Invalidate" {
 				// (a step that may run a whole maintenance cycle is in order by itself: C16.order)
-				if maint != nil {
+				if maint != nil && skipMaintenance {
 					if m, _ := reachesInstr(c, func(x ssa.Instruction) bool { return isCallTo(x, maint) }, map[*ssa.Function]bool{}, nil); m {
 						return
 					}
 				}
-				if ok, _ := reachesInstr(c, what, map[*ssa.Function]bool{}, nil); ok {
+				// (replaying a queued task may itself evict: that is the replay, not a direct delete)
+				seen := map[*ssa.Function]bool{}
+				if rt != nil {
+					if origin(c) == origin(rt) {
+						return
+					}
+					seen[origin(rt)] = true
+				}
+				if ok, _ := reachesInstr(c, what, seen, nil); ok {
 					out = append(out, in)
 				}
 			}
 		})
 		return out
 	}
-	pops := steps(func(in ssa.Instruction) bool { return isCallTo(in, tryPop) })
-	dels := steps(func(in ssa.Instruction) bool { return isCallTo(in, dnm) })
+	pops := steps(func(in ssa.Instruction) bool { return isCallTo(in, tryPop) }, true)
+	dels := steps(func(in ssa.Instruction) bool { return isCallTo(in, dnm) }, false)
 	ok := len(pops) > 0 && len(dels) > 0
 	for _, d := range dels {
 		for _, p := range pops {
@@ -242,6 +264,14 @@ func ruleC16InvalidateOrder(cx *Ctx) {
 		}
 		if !reached {
 			ok = false
+		}
+	}
+	if os.Getenv("OTTERLINT_TRACE") != "" {
+		for _, p := range pops {
+			fmt.Fprintln(os.Stderr, "pop step:", cx.P.where(p), p)
+		}
+		for _, d := range dels {
+			fmt.Fprintln(os.Stderr, "del step:", cx.P.where(d), d)
 		}
 	}
 	cx.R.Check(ok, rule, funcName(fn), "drain ≺ direct deletes", cx.P.Pos(fn.Pos()), "the write buffer is drained before nodes are deleted directly, and not after")
